@@ -1,4 +1,4 @@
-import MgpuProofs.C10Ops
+import MgpuProofs.C10Step
 /-!
 # Property C10 — device memory management never aliases pages or corrupts mappings
 
@@ -36,45 +36,27 @@ theorem allocateUnified_inv {s s' : State} {π bytes v : Nat}
     exact ⟨h1.1, h2, h1.2⟩
 
 /-- `Remap` (any target device, CPU, GPU or unified; any range) never aliases: the new physical
-pages are distinct from every live page and recorded with the device that owns them. -/
+pages are distinct from every live page and recorded with the device that owns them; the page an entry
+named before goes back to the free list of its device only when the allocator's record of the virtual
+address is right about it (`MirrorWeak`, which every history keeps for any number of processes). -/
 theorem remap_inv {s s' : State} {π addr bytes d : Nat}
-    (hP : PInv s.ps s.devs s.pool.frees s.pt) (h : remap s π addr bytes d = .ok s') :
+    (hP : PInv s.ps s.devs s.pool.frees s.pt) (hM : MirrorWeak s.mirror s.pt)
+    (h : remap s π addr bytes d = .ok s') :
     PInv s'.ps s'.devs s'.pool.frees s'.pt ∧ (SinglePID π s → MirrorOK s → SinglePID π s' ∧ MirrorOK s') :=
-  remap_pres hP h
+  remap_pres hP hM h
 
 /-- `Distribute` = a sequence of `Remap`s. -/
-theorem remapAll_inv (π : Nat) (ids : List Nat) : ∀ (plan : List (Nat × Nat × Nat)) (s s' : State),
-    PInv s.ps s.devs s.pool.frees s.pt → remapAll π ids plan s = .ok s' →
-    PInv s'.ps s'.devs s'.pool.frees s'.pt ∧ (SinglePID π s → MirrorOK s → SinglePID π s' ∧ MirrorOK s') := by
-  intro plan
-  induction plan with
-  | nil => intro s s' hP h; simp [remapAll] at h; subst h; exact ⟨hP, fun a b => ⟨a, b⟩⟩
-  | cons r rest ih =>
-    intro s s' hP h
-    obtain ⟨a, b, i⟩ := r
-    simp only [remapAll] at h
-    split at h
-    · simp at h
-    · rename_i s1 h1
-      have p1 := remap_pres hP h1
-      have p2 := ih s1 s' p1.1 h
-      exact ⟨p2.1, fun x y => let ⟨x', y'⟩ := p1.2 x y; p2.2 x' y'⟩
+theorem remapAll_inv (π : Nat) (ids : List Nat) (plan : List (Nat × Nat × Nat)) (s s' : State)
+    (hP : PInv s.ps s.devs s.pool.frees s.pt) (hM : MirrorWeak s.mirror s.pt)
+    (h : remapAll π ids plan s = .ok s') :
+    PInv s'.ps s'.devs s'.pool.frees s'.pt ∧ (SinglePID π s → MirrorOK s → SinglePID π s' ∧ MirrorOK s') :=
+  remapAll_pres π ids plan s s' hP hM h
 
 theorem distribute_inv {s s' : State} {π addr bytes : Nat} {ids bs : List Nat}
-    (hP : PInv s.ps s.devs s.pool.frees s.pt) (h : distribute s π addr bytes ids = .ok (bs, s')) :
-    PInv s'.ps s'.devs s'.pool.frees s'.pt ∧ (SinglePID π s → MirrorOK s → SinglePID π s' ∧ MirrorOK s') := by
-  unfold distribute at h
-  split at h
-  · injection h with h; obtain ⟨_, rfl⟩ := Prod.mk.inj h; exact ⟨hP, fun a b => ⟨a, b⟩⟩
-  · split at h
-    · simp at h
-    · split at h
-      · simp at h
-      · split at h
-        · simp at h
-        · rename_i s1 h1
-          injection h with h; obtain ⟨_, rfl⟩ := Prod.mk.inj h
-          exact remapAll_inv π ids _ s _ hP h1
+    (hP : PInv s.ps s.devs s.pool.frees s.pt) (hM : MirrorWeak s.mirror s.pt)
+    (h : distribute s π addr bytes ids = .ok (bs, s')) :
+    PInv s'.ps s'.devs s'.pool.frees s'.pt ∧ (SinglePID π s → MirrorOK s → SinglePID π s' ∧ MirrorOK s') :=
+  distribute_pres hP hM h
 
 /-- `AllocatePageWithGivenVAddr` (the allocation half of page-migration preparation). -/
 theorem allocGiven_inv {s s' : State} {π d v : Nat} {u : Bool} {pg : Page}
